@@ -64,7 +64,8 @@ def run(ctx):
                         label='3x3, 3 ops per thread')
     # negative control: the original getUpdate() (no claim) must be caught by the same invariants
     neg = ctx.tlc(SPEC, 'MCAsyncReq.tla', 'MC_orig_clear.cfg', workers=4, count=False,
-                  label='negative control: getUpdate without claim (original code)')
+                  label='negative control: getUpdate without claim (original code)',
+                  extra=['-noGenerateSpecTE'])
     ctx.cov['negative_control'] = neg.violation
     if not neg.violation:
         raise vlib_error('negative control passed: the model does not detect two consumers racing in getUpdate()')
